@@ -24,9 +24,12 @@ class Result:
         self.reason = reason
 
 
+SCALE = 1.0  # all solver budgets are multiplied by this (the retry of an open obligation uses 3.0)
+
+
 def _solver(hyps, goal, timeout_ms, seed=0):
     s = z3.Solver()
-    s.set("timeout", timeout_ms)
+    s.set("timeout", int(timeout_ms * SCALE))
     s.set("random_seed", seed)
     for h in hyps:
         s.add(h)
@@ -138,7 +141,7 @@ def discharge(hyps, goal, timeout_ms=None, want_model=False, portfolio=True, ful
         t00 = time.time()
         ground = [h for h in hyps if not _has_quantifier(h)]
         if len(ground) < len(hyps) and not _has_quantifier(goal):
-            sg = _solver(ground, goal, 1000)
+            sg = _solver(ground, goal, 1500)
             if sg.check() == z3.unsat:
                 return Result("proved", "z3-5.1", time.time() - t00)
         # shallow cones of influence first: few axioms, so E-matching cannot wander
@@ -148,7 +151,7 @@ def discharge(hyps, goal, timeout_ms=None, want_model=False, portfolio=True, ful
             if len(shallow) == last or len(shallow) == len(hyps):
                 break
             last = len(shallow)
-            sd = _solver(shallow, goal, 1200)
+            sd = _solver(shallow, goal, 2500)
             sd.set("smt.mbqi", False)
             if sd.check() == z3.unsat:
                 return Result("proved", "z3-5.1", time.time() - t00)
@@ -175,7 +178,7 @@ def discharge(hyps, goal, timeout_ms=None, want_model=False, portfolio=True, ful
     ag = abstract_products(goal, cache)
     for mbqi, tmo in ((True, 4000), (False, 5000)):
         s3 = z3.Solver()
-        s3.set("timeout", min(timeout_ms, tmo))
+        s3.set("timeout", int(min(timeout_ms, tmo) * SCALE))
         if not mbqi:
             s3.set("smt.mbqi", False)
         for h in ah:
@@ -202,9 +205,9 @@ def discharge(hyps, goal, timeout_ms=None, want_model=False, portfolio=True, ful
         return Result("unknown", "z3-5.1", dt, reason=reason)
     # second opinions on the same SMT-LIB text
     smt = s.to_smt2()
-    for name, cmd in _external_solvers(timeout_ms):
+    for name, cmd in _external_solvers(int(timeout_ms * SCALE)):
         t1 = time.time()
-        out = _run_external(cmd, smt, timeout_ms)
+        out = _run_external(cmd, smt, int(timeout_ms * SCALE))
         d1 = time.time() - t1
         if out == "unsat":
             return Result("proved", name, dt + d1)
